@@ -131,7 +131,8 @@ def run_shard(shard: Dict[str, Any]) -> Dict[str, Any]:
     b = META["bounds"][shard["tier"]]
     base = BASES[shard["base"]]
     holder = [base]
-    clock.install(lambda: holder[0])
+    # the process' local zone must not matter: every other shard runs with naive now() 5:30 ahead of UTC
+    clock.install(lambda: holder[0], local_offset=dt.timedelta(hours=5, minutes=30) if (shard["secs"][0] // 6) % 2 else None)
     spellings = _spellings()
     sec_deltas = list(range(-3, 64))
     us_deltas = [-1, 0, 1, 500000]
